@@ -27,6 +27,16 @@ Round 4:
 (8) `lookalike_options_family`: allow_mutable_automata=True with the definition handed over in dict / set
     subclasses (defaultdict, OrderedDict, __missing__, set subclass): accepted, same answers as the default
     configuration, and after every read / operation the object still passes validate() and copy().
+
+Round 6:
+(9) `history_family` (generators in harness/gen_history.py): the verdict on a definition is a function of the
+    definition — not of what the process constructed or validated before.  Scenarios executed in ONE process:
+    a single-rule corruption and its VALID relatives (the valid original; the same rows / labels / symbols over a
+    larger alphabet / state set / stack alphabet / tape alphabet / one more tape; for GNFA also the result of
+    GNFA.from_dfa / from_nfa over a larger alphabet) in alternation, both orders, repeated constructions, four ways
+    (constructor, validate() by hand, mutable option, copy()), two classes interleaved.  Every verdict must be the
+    expected one (reference predicate / operator table — never the library's word); a deviation is re-confirmed in
+    fresh interpreters and minimised; replay kind `history` re-executes the recorded steps in a new process.
 """
 from __future__ import annotations
 
@@ -59,7 +69,16 @@ RULE = ("cases = (class, definition, expectation): valid-by-documentation defini
         "container look-alikes of harness/lookalike.py (defaultdict outer+rows / outer only, OrderedDict, __missing__ "
         "inserting / defaulting, set subclass) × every operation, query and run (words over the alphabet, with a foreign "
         "symbol, and words the automaton accepts): answers equal to the default configuration built from plain "
-        "containers, and after every call validate() and copy() of the operand still succeed. Non-trivial: the "
+        "containers, and after every call validate() and copy() of the operand still succeed. Round 6: PROCESS-HISTORY scenarios — for each of the 8 classes a "
+        "valid definition, a single-rule corruption of it (operator table at a random position, at most two positions per "
+        "rule; the shrunk-universe operators: one USED input / stack / tape symbol or state removed from its set, rows "
+        "untouched; multi-character GNFA labels whose only defect is a symbol outside the alphabet) and its VALID relatives "
+        "(the original; the corrupted rows over the enlarged alphabet / state set / stack alphabet / tape alphabet, with and "
+        "without one more fresh symbol and state; an MNTM over one more tape; the GNFA returned by GNFA.from_dfa / from_nfa "
+        "of a DFA / NFA over a larger alphabet) executed in alternation in one process — corrupted first or valid first, "
+        "identical definitions repeated, constructor / validate() by hand / mutable option / copy(), a third of the scenarios "
+        "interleaved with the next one (often of another class): every verdict equals the verdict the definition gets alone "
+        "(expected class from the reference predicate / rule table; deviations re-confirmed in fresh interpreters). Non-trivial: the "
         "definition has ≥2 states and ≥1 transition; distinct = distinct (class, encoded definition, expectation/op) tuples")
 ASSUMPTIONS = [
     "definitions are type-correct (the container shapes of the class docstrings); names hashable",
@@ -84,12 +103,19 @@ ASSUMPTIONS = [
     "documented); random_word: any word of the requested length in the language (the seed-to-word mapping is not documented)",
     "container look-alikes under the mutable option are subclasses of dict / set with the same content (the documented "
     "parameter types are Mapping / AbstractSet); the reference answers are those of the default configuration on plain containers",
+    "process-history family: 'valid' = gen_misc.accepted_by_docs plus, for GNFA labels, a conservative recursive-descent "
+    "recogniser of label syntax (alternatives of non-empty concatenations of symbols / groups / `()`, at most one `*` or `?` "
+    "per atom) with every symbol in the alphabet; a label it recognises that mentions a symbol outside the alphabet is "
+    "documented InvalidRegexError; labels it does not recognise form no expectation. 'Fresh interpreter' = a new process of "
+    "the same Python with the same PYTHONPATH / PYTHONHASHSEED executing the recorded steps",
     "results of the four option combinations are compared literally; when set iteration order makes library-generated state names differ: same class, alphabet, number of states and EXACTLY the same language (product BFS over the two definitions, harness/langoracle.py)",
 ]
 EXPLANATION = ("Theorems C19_* state validate = ok ↔ well-formed (declarative), that every raised error is the documented "
                "class of a violated rule (so a single-rule corruption raises exactly that class), and that the constructor "
                "model returns the same definition under all four option combinations; this run ties the validate models to "
-               "the real constructors and evaluates soundness / results-valid / option-independence on the real code.")
+               "the real constructors and evaluates soundness / results-valid / option-independence on the real code. The "
+               "theorems make validate a FUNCTION of the definition; the process-history family checks that the real verdict "
+               "is one too (same verdict whatever the process constructed before).")
 
 DRV = "drv_misc"
 
@@ -815,6 +841,327 @@ def lookalike_options_family(ctx: Ctx, rng, count: int):
                 lookalike_options_case(ctx, cls, kw, kw2, flavour, bool((i + j) % 2), rng, "lookalike")
 
 
+# ------------------------------------------------------------------ process history
+HISTORY_CONFIRM_CAP = 2
+
+
+def _history_warmups(cls: str, kw, k1, rng):
+    """[(tag, class of the definition, definition, ways)] — VALID definitions related to the corrupted k1:
+    the valid original (same rows except at the corrupted position), k1 over the larger universe that makes
+    everything its rows mention legal, the same with one more fresh symbol and state, an MNTM over one more
+    tape.  Every one is valid by the reference predicate (H.valid_by_docs), not by the library's word."""
+    from harness import gen_history as H
+    out = []
+    if H.valid_by_docs(cls, kw):
+        out.append(("valid-original", cls, kw, H.WAYS_VALID))
+    seen = {repr(kw)}
+    for tag, extra in (("enlarged-universe", False), ("enlarged-universe+fresh", True)):
+        k = H.enlarge(cls, k1, extra)
+        if k is not None and repr(k) not in seen and H.valid_by_docs(cls, k):
+            seen.add(repr(k))
+            out.append((tag, cls, k, H.WAYS_VALID))
+    if cls == "MNTM" and H.valid_by_docs(cls, kw) and rng.random() < 0.5:
+        out.append(("one-more-tape", cls, H.more_tapes(kw), H.WAYS_VALID))
+    return out
+
+
+def _history_scenario(cls: str, k1, exc: str, rule: str, warmups, rng):
+    """Steps: the corrupted definition and its valid relatives in alternation — corrupted before anything
+    else or only after a valid relative (both orders are drawn), every relative at least twice (repeated
+    construction of the identical definition, a second way: constructor / validate() by hand on an object
+    built with validation off / mutable option / copy()), the corrupted one after every relative."""
+    from harness import gen_history as H
+    steps = []
+
+    def bad():
+        steps.append(H.make_step(cls, rng.choice(H.WAYS_ANY), k1, exc, "corrupted", rule))
+
+    if rng.random() < 0.5:
+        bad()
+    for tag, wcls, wkw, ways in warmups:
+        steps.append(H.make_step(wcls, "ctor" if ("ctor" in ways and rng.random() < 0.6) else rng.choice(ways), wkw, "ok", tag))
+        if rng.random() < 0.7:
+            steps.append(H.make_step(wcls, rng.choice(ways), wkw, "ok", tag))
+        bad()
+    if rng.random() < 0.3:
+        bad()
+    return steps
+
+
+def _interleave(rng, a, b):
+    """A random merge of two step lists that keeps the order inside each."""
+    out, i, j = [], 0, 0
+    while i < len(a) or j < len(b):
+        if j >= len(b) or (i < len(a) and rng.random() < 0.5):
+            out.append(a[i])
+            i += 1
+        else:
+            out.append(b[j])
+            j += 1
+    return out
+
+
+def _history_minimise(before, last, reproduces, budget: int):
+    """Delta debugging (ddmin, bounded number of fresh interpreters) of the steps that come BEFORE the deviating
+    step: a shorter list after which the deviation still shows in a fresh interpreter."""
+    cur, n = list(before), 2
+    while len(cur) >= 2 and budget > 0:
+        size = -(-len(cur) // n)
+        parts = [cur[i:i + size] for i in range(0, len(cur), size)]
+        cands = parts + ([[x for j, p in enumerate(parts) if j != i for x in p] for i in range(len(parts))]
+                         if len(parts) > 2 else [])
+        for cand in cands:
+            if budget <= 0:
+                break
+            budget -= 1
+            if cand and len(cand) < len(cur) and reproduces(cand + [last]):
+                cur, n = cand, 2
+                break
+        else:
+            if n >= len(cur):
+                break
+            n = min(len(cur), n * 2)
+            continue
+    return cur
+
+
+@guarded
+def history_case(ctx: Ctx, steps, origin: str, state: Dict[str, Any]) -> bool:
+    """Execute the steps in order in THIS process (real constructors / validate() / copy() / GNFA.from_dfa /
+    GNFA.from_nfa); the verdict of every step must be the expected one — `ok` for a definition that is valid by
+    the documentation, the documented class for a single-rule corruption — whatever was constructed before it.
+    A deviation is re-confirmed in a NEW interpreter that executes exactly the recorded steps (this is what the
+    replay does; when the steps of this scenario do not suffice, the steps this family executed earlier in the
+    process are added and the list is minimised), and the deviating definition is judged alone in another one."""
+    from harness import gen_history as H
+    models: Dict[Any, str] = {}
+    log = state.setdefault("log", [])
+    for i, s in enumerate(steps):
+        got = H.run_step(s)
+        log.append(s)
+        ctx.stat("history:steps")
+        ctx.stat(f"history:way:{s['how']}")
+        ctx.stat(f"history:role:{s['role']}")
+        ctx.stat(f"history:verdict:{s['cls']}:{got}")
+        # correspondence: the model's verdict on this definition (a function of the definition alone)
+        if s["how"] in ("ctor", "validate", "ctor_mutable", "copy"):
+            mk = (s["cls"], s["kwargs"])
+            if mk not in models:
+                models[mk] = model_validate(ctx, s["cls"], eval(s["kwargs"], _env()))
+            if got == s["expect"] and models[mk] != got:
+                ctx.corr_diff(f"VALIDATE_{s['cls']}", dict(cls=s["cls"], kwargs=s["kwargs"], origin=origin), got, models[mk])
+        if got == s["expect"]:
+            continue
+        # --- deviation: re-confirm in fresh interpreters
+        state["deviations"] = state.get("deviations", 0) + 1
+        ctx.stat("history:deviations")
+
+        def reproduces(seq):
+            v = H.fresh_verdicts(seq)
+            return v is not None and v[-1] != s["expect"]
+
+        alone = H.fresh_verdicts([s])
+        alone_v = alone[0] if alone else "?"
+        what_def = ("a definition that is valid by the documentation" if s["expect"] == "ok"
+                    else f"corruption '{s['rule']}' of a valid definition (documented: {s['expect']})")
+        before = None
+        if alone_v != s["expect"]:
+            before = []  # not a matter of history at all
+        elif reproduces(steps[: i + 1]):
+            before = _history_minimise(steps[:i], s, reproduces, 4)
+        else:
+            # the history that matters is older than this scenario: the steps this family executed before
+            older = log[:-1]
+            related = [x for x in older if x["cls"] == s["cls"] and x["expect"] == "ok"]
+            if related and reproduces(related + [s]):
+                before = _history_minimise(related, s, reproduces, 8)
+            elif reproduces(older + [s]):
+                before = _history_minimise(older, s, reproduces, 10)
+        if before is not None:
+            seq = before + [s]
+            v = H.fresh_verdicts(seq)
+            bad = v[-1] if v else got
+            hist = ", ".join(f"{p['cls']}[{p['role']}; {p['how']}]" for p in before[-6:]) or "nothing"
+            rp = dict(cls=s["cls"], kind="history", steps=seq, origin=origin)
+            state["reported"] = state.get("reported", 0) + 1
+            if before:
+                ctx.prop_fail(f"{s['cls']}: the verdict depends on the process history — {what_def} gives {bad} when "
+                              f"{len(before)} construction(s) / validation(s) of VALID definitions or of itself came before "
+                              f"it in the same process ({hist}), but {alone_v} when it is the first thing a fresh "
+                              f"interpreter does (way: {s['how']})", rp, None)
+            else:
+                ctx.prop_fail(f"{s['cls']}: {what_def} gives {alone_v} (way: {s['how']}; alone in a fresh interpreter)",
+                              rp, None)
+        else:
+            again = H.run_step(s)
+            state.setdefault("deferred", []).append(
+                (f"{s['cls']}: {what_def} gave {got} in the harness process (again now: {again}); the definition alone in a "
+                 f"fresh interpreter gives {alone_v}, and so do the steps this family executed before it — the verdict "
+                 "depends on earlier constructions of the harness process",
+                 dict(cls=s["cls"], kind="history", steps=steps[: i + 1], origin=origin)))
+        return False
+    return True
+
+
+def history_family(ctx: Ctx, rng, count: int):
+    """PROCESS HISTORY (round 6).  The property speaks about definitions: the verdict on a definition does not
+    depend on what the process constructed or validated before.  For every class: valid definition -> single-rule
+    corruption (operator table of gen_misc.corruptions at a random position, the `shrunk universe` operators and
+    the multi-character label operators of harness/gen_history.py) -> its valid relatives over a larger alphabet /
+    state set / stack alphabet / tape alphabet / tape count -> one scenario that alternates them in one process
+    (both orders, repetitions, four ways of constructing / validating); GNFA also through the library's own
+    GNFA.from_dfa / GNFA.from_nfa over a larger alphabet; scenarios of two different classes interleaved."""
+    from harness import gen_history as H
+    state: Dict[str, Any] = {}
+    pending = None
+    history_corpus(ctx, state)
+
+    def submit(cls, steps, rule, origin, key):
+        nonlocal pending
+        ctx.stat("history:scenarios")
+        ctx.stat(f"history:{cls}:{rule}")
+        ctx.case(key)
+        # half of the scenarios wait for the next one (of whatever class) and are interleaved with it
+        if pending is None and rng.random() < 0.35:
+            pending = (steps, origin)
+            return
+        if pending is not None:
+            psteps, porigin = pending
+            pending = None
+            ctx.stat("history:interleaved_pairs")
+            if psteps[0]["cls"] != steps[0]["cls"]:
+                ctx.stat("history:interleaved_pairs_of_different_classes")
+            steps, origin = _interleave(rng, psteps, steps), f"{porigin} ⋈ {origin}"
+        history_case(ctx, steps, origin, state)
+
+    for _ in range(count):
+        for cls in G.CLASSES:
+            if state.get("deviations", 0) >= HISTORY_CONFIRM_CAP:
+                return _history_flush(ctx, state)
+            kw = G.rand_def(rng, cls)
+            if not H.valid_by_docs(cls, kw):
+                ctx.stat("history:base_outside_clear_domain")
+                continue
+            cors = [(r, e, t()) for (r, e, t) in G.corruptions(cls, kw)]
+            cors += list(H.shrink_corruptions(cls, kw))
+            if cls == "GNFA":
+                cors += list(H.gnfa_label_corruptions(rng, kw))
+            # corruptions that have a valid relative over a LARGER universe first, a few of the others
+            rich, plain = [], []
+            for (rule, exc, k1) in cors:
+                ws = _history_warmups(cls, kw, k1, rng)
+                (rich if any(t != "valid-original" for t, *_ in ws) else plain).append((rule, exc, k1, ws))
+            rng.shuffle(rich)
+            rng.shuffle(plain)
+            by_rule: Dict[str, int] = {}
+            chosen = []
+            for c in rich:  # at most two positions per rule, so that every healable rule is drawn
+                if by_rule.get(c[0], 0) < 2:
+                    by_rule[c[0]] = by_rule.get(c[0], 0) + 1
+                    chosen.append(c)
+            chosen = chosen[: ctx.budget(8, 40)] + plain[: ctx.budget(2, 10)]
+            for (rule, exc, k1, ws) in chosen:
+                if not ws:
+                    continue
+                for t, *_ in ws:
+                    ctx.stat(f"history:relative:{t}")
+                steps = _history_scenario(cls, k1, exc, rule, ws, rng)
+                submit(cls, steps, rule, f"history:{rule}",
+                       (cls, "history", rule, repr(k1)) if nontrivial(kw) else None)
+        # GNFA through the library's own conversions: DFA / NFA over a larger alphabet -> GNFA.from_dfa /
+        # from_nfa -> the returned definition (results-valid clause: it must be accepted again) -> the same
+        # definition with one symbol that occurs in a label removed from the alphabet (InvalidRegexError)
+        for src in ("DFA", "NFA"):
+            if state.get("deviations", 0) >= HISTORY_CONFIRM_CAP:
+                return _history_flush(ctx, state)
+            al = list(rng.choice([a for a in gen_alphabets() if len(a) >= 2]))
+            skw = G.rand_def(rng, src, alphabet=al)
+            how = "GNFA.from_dfa" if src == "DFA" else "GNFA.from_nfa"
+            r = M.construct(src, G._dc(skw))
+            if r[0] != "ok":
+                continue
+            with M.options(True, False):
+                g = run_op(getattr(G.get_class("GNFA"), how.split(".")[1]), r[1])
+            if g[0] != "ok":
+                continue  # (the conversions themselves are judged by use_definition)
+            gk = G.kwargs_of(g[1])
+            status = H.gnfa_labels_status(gk)
+            ctx.stat(f"history:conversion_labels:{status}")
+            if status != "ok" or not G.accepted_by_docs("GNFA", gk):
+                continue
+            shr = list(H.shrink_corruptions("GNFA", gk))
+            multi = [c for c in shr if any(lab and len(lab) > 1 and not H.label_symbols(lab) <= set(c[2]["input_symbols"])
+                                           for row in c[2]["transitions"].values() for lab in row.values())]
+            ctx.stat("history:conversion_multichar_label" if multi else "history:conversion_single_char_labels_only")
+            pool = multi or shr
+            if not pool:
+                continue
+            rule, exc, k1 = rng.choice(pool)
+            ws = [(how, src, skw, (how,)), ("conversion-result", "GNFA", gk, H.WAYS_VALID)]
+            if rng.random() < 0.5:
+                ws.reverse()
+            steps = _history_scenario("GNFA", k1, exc, rule, ws, rng)
+            submit("GNFA", steps, f"{rule}:after-{how}", f"history:{how}", ("GNFA", "history", how, repr(k1)))
+    if pending is not None:
+        history_case(ctx, pending[0], pending[1], state)
+    _history_flush(ctx, state)
+
+
+def history_corpus(ctx: Ctx, state):
+    """Fixed scenarios (multi-character GNFA labels shared between a GNFA over {a,b,c} — hand-written and as
+    returned by GNFA.from_dfa — and its corruption over {a,b}; a DFA / NFA pair sharing rows; a DPDA whose stack
+    alphabet shrinks; an MNTM before and after a tape is added)."""
+    from harness import gen_history as H
+    big = dict(states={"s", "f", 0, 1}, input_symbols={"a", "b", "c"},
+               transitions={"s": {0: "", 1: None, "f": None}, 0: {0: "a", 1: "b|c", "f": "(a|c)?"},
+                            1: {0: "cc*", 1: "c|b", "f": ""}}, initial_state="s", final_state="f")
+    dfa = dict(states={0, 1}, input_symbols={"a", "b", "c"},
+               transitions={0: {"a": 0, "b": 1, "c": 1}, 1: {"a": 1, "b": 1, "c": 1}}, initial_state=0,
+               final_states={1}, allow_partial=False)
+    bad = G._dc(big)
+    bad["input_symbols"] = {"a", "b"}
+    one = dict(states={"s", "f", 0, 1}, input_symbols={"a", "b"},
+               transitions={"s": {0: "", 1: None, "f": None}, 0: {0: "a", 1: "b|c", "f": None},
+                            1: {0: None, 1: "b", "f": ""}}, initial_state="s", final_state="f")
+    st = H.make_step
+    steps = [st("GNFA", "ctor", one, "InvalidRegexError", "corrupted", "malformed_label"),
+             st("DFA", "GNFA.from_dfa", dfa, "ok", "GNFA.from_dfa"),
+             st("GNFA", "ctor", big, "ok", "valid-original"),
+             st("GNFA", "ctor", one, "InvalidRegexError", "corrupted", "malformed_label"),
+             st("GNFA", "copy", big, "ok", "valid-original"),
+             st("GNFA", "validate", bad, "InvalidRegexError", "corrupted", "shrunk_input_alphabet"),
+             st("GNFA", "ctor", big, "ok", "valid-original")]
+    ctx.case(("history", "corpus", "gnfa-labels"))
+    ctx.stat("history:corpus")
+    history_case(ctx, steps, "history:corpus:gnfa-labels", state)
+    nfa = dict(states={0, 1}, input_symbols={"a", "b", "c"}, transitions={0: {"a": {0}, "c": {1}}, 1: {"b": {1}}},
+               initial_state=0, final_states={1})
+    nfa_bad = dict(nfa, input_symbols={"a", "b"})
+    dfa_bad = dict(G._dc(dfa), input_symbols={"a", "b"})
+    steps = [st("NFA", "ctor", nfa, "ok", "valid-original"), st("DFA", "ctor", dfa, "ok", "valid-original"),
+             st("NFA", "ctor", nfa_bad, "InvalidSymbolError", "corrupted", "shrunk_input_alphabet"),
+             st("DFA", "validate", dfa_bad, "InvalidSymbolError", "corrupted", "shrunk_input_alphabet"),
+             st("NFA", "copy", nfa, "ok", "valid-original"), st("DFA", "ctor_mutable", dfa, "ok", "valid-original"),
+             st("DFA", "ctor", dfa_bad, "InvalidSymbolError", "corrupted", "shrunk_input_alphabet")]
+    ctx.case(("history", "corpus", "fa-rows"))
+    ctx.stat("history:corpus")
+    history_case(ctx, steps, "history:corpus:fa-rows", state)
+
+
+def _history_flush(ctx: Ctx, state):
+    """Deviations seen in the harness process that no recorded list of steps reproduces in a fresh interpreter
+    are reported only when the family has nothing reproducible to show (their replay cannot fail again)."""
+    if state.get("deferred") and not state.get("reported"):
+        what, rp = state["deferred"][0]
+        ctx.prop_fail(what, rp, None)
+    state["deferred"] = []
+
+
+def gen_alphabets():
+    from harness import gen
+    return gen.ALPHABETS
+
+
 # ------------------------------------------------------------------ corpus
 def corpus(ctx: Ctx, rng):
     # F11 (fixed 5a3675d): MNTM transition list [] validates; the native run must not crash
@@ -1032,6 +1379,9 @@ def run(ctx: Ctx):
     for _ in range(ctx.budget(16, 400)):
         for cls in G.CLASSES:
             options_check(ctx, cls, G.rand_def(rng, cls), rng, "valid")
+    # 5. process history (last: the families above are evaluated exactly as before, and none of them runs in a
+    #    process in which this family has already constructed the valid relatives of their corruptions)
+    history_family(ctx, rng, ctx.budget(10, 120))
 
 
 def double(kw, cls, c1, c2):
@@ -1120,6 +1470,11 @@ def replay(ctx: Ctx, path: str) -> int:
             if ctx.prop_fails:
                 break
             lookalike_options_case(ctx, cls, kw, kw2, rp["flavour"], rp["sv"], rng, "replay")
+    elif kind == "history":
+        # the recorded steps, in order, in this (new) process; every verdict must be the expected one
+        hstate: Dict[str, Any] = {}
+        history_case(ctx, [dict(e) for e in rp["steps"]], "replay", hstate)
+        _history_flush(ctx, hstate)
     elif kind == "restored":
         kw = eval(rp["kwargs"], _env())
         kw2 = eval(rp["rhs"], _env()) if rp.get("rhs") else None
